@@ -10,7 +10,23 @@ use serde::{Deserialize, Serialize};
 pub struct C16;
 
 #[derive(Clone, Debug, PartialEq, Serialize, Deserialize)]
-pub enum Pat { Lit(u8), Var, Wild }
+pub enum Pat { Lit(u8), Var, Wild,
+  /// the variable of an earlier position of the same pattern, written again (position = k mod own position, if that position holds a
+  /// variable; otherwise a fresh variable): a repeated variable matches only a value equal to the one it is already bound to
+  Same(u8) }
+
+/// resolves `Same(k)` at position j to `Same(i)` with i < j an absolute position holding `Var`, or to `Var`
+fn canon(pats: &[Pat]) -> Vec<Pat> {
+  let mut out: Vec<Pat> = vec![];
+  for (j, p) in pats.iter().enumerate() {
+    out.push(match p { Pat::Same(k) if j > 0 && out[*k as usize % j] == Pat::Var => Pat::Same((*k as usize % j) as u8), Pat::Same(_) => Pat::Var, q => q.clone() });
+  }
+  out
+}
+/// does the (canonical) pattern list match the values?
+fn pats_match(pats: &[Pat], vals: &[f64]) -> bool {
+  pats.iter().zip(vals).all(|(p, v)| match p { Pat::Lit(k) => *k as f64 == *v, Pat::Same(i) => vals[*i as usize] == *v, _ => true })
+}
 
 #[derive(Clone, Debug, PartialEq, Serialize, Deserialize)]
 pub enum Body {
@@ -60,7 +76,7 @@ pub enum Case {
   Broadcast { arms: Vec<Arm>, rows: u8, cols: u8, data: Vec<u8> },
 }
 
-fn pat_s() -> BoxedStrategy<Pat> { prop_oneof![3 => (0u8..4).prop_map(Pat::Lit), 2 => Just(Pat::Var), 1 => Just(Pat::Wild)].boxed() }
+fn pat_s() -> BoxedStrategy<Pat> { prop_oneof![6 => (0u8..4).prop_map(Pat::Lit), 4 => Just(Pat::Var), 2 => Just(Pat::Wild), 1 => (0u8..3).prop_map(Pat::Same)].boxed() }
 fn body_s(arity: u8) -> BoxedStrategy<Body> { prop_oneof![3 => Just(Body::Const), 3 => (0..arity).prop_map(Body::Var), 1 => Just(Body::Sum), 2 => (0..arity).prop_map(Body::Param), 3 => (0u8..4).prop_map(Body::Wrap)].boxed() }
 fn arm_s(arity: u8) -> BoxedStrategy<Arm> { (proptest::collection::vec(pat_s(), arity as usize), body_s(arity)).prop_map(|(pats, body)| Arm { pats, body }).boxed() }
 
@@ -106,7 +122,7 @@ impl Prop for C16 {
     out
   }
   fn rule() -> &'static str {
-    "case ∈ {user function with 1-5 match arms (literal / variable / wildcard / tuple patterns; bodies: constant, bound variable, sum, the sum with every variable read inside a matrix literal / a library call / parentheses / a kind annotation, or \
+    "case ∈ {user function with 1-5 match arms (literal / variable / wildcard / tuple patterns, a variable repeated in a later position (an equality constraint); bodies: constant, bound variable, sum, the sum with every variable read inside a matrix literal / a library call / parentheses / a kind annotation, or \
      a *declared parameter*) called with all small arguments and with wrong arity; match expression over a scalar, tuple, vector or enum \
      value with 1-5 arms (literal, variable, tuple, array head/last/empty, enum variant with/without payload patterns, optional guards) \
      with or without the `*` arm; recurrences (factorial, power, fibonacci, gcd, tail-recursive count and sum, in pattern-variable and \
@@ -122,7 +138,9 @@ impl Prop for C16 {
   fn check(c: &Case, _cx: &Cx) -> Verdict { check(c) }
 }
 
-fn pat_text(p: &Pat, name: &str) -> String { match p { Pat::Lit(k) => format!("{}", k), Pat::Var => name.to_string(), Pat::Wild => "*".to_string() } }
+fn pat_text(p: &Pat, name: &str) -> String { match p { Pat::Lit(k) => format!("{}", k), Pat::Var | Pat::Same(_) => name.to_string(), Pat::Wild => "*".to_string() } }
+/// texts of a canonical pattern list; a repeated variable is written with the name of the position it repeats
+fn pats_text(pats: &[Pat], name: &dyn Fn(usize) -> String) -> Vec<String> { pats.iter().enumerate().map(|(j, p)| match p { Pat::Same(i) => name(*i as usize), q => pat_text(q, &name(j)) }).collect() }
 
 fn body_text(b: &Body, bound: &[Option<String>], params: &[String], arm: usize) -> String {
   let names: Vec<String> = bound.iter().flatten().cloned().collect();
@@ -153,8 +171,9 @@ fn fun_def(name: &str, arity: u8, arms: &[Arm]) -> String {
   let params: Vec<String> = (0..arity).map(|i| format!("q{}", i)).collect();
   let mut s = format!("{}({}) => <f64>\n", name, params.iter().map(|p| format!("{}<f64>", p)).collect::<Vec<_>>().join(", "));
   for (i, a) in arms.iter().enumerate() {
-    let bound: Vec<Option<String>> = a.pats.iter().enumerate().map(|(j, p)| if *p == Pat::Var { Some(format!("v{}x{}", i, j)) } else { None }).collect();
-    let pats: Vec<String> = a.pats.iter().enumerate().map(|(j, p)| pat_text(p, &format!("v{}x{}", i, j))).collect();
+    let cp = canon(&a.pats);
+    let bound: Vec<Option<String>> = cp.iter().enumerate().map(|(j, p)| if *p == Pat::Var { Some(format!("v{}x{}", i, j)) } else { None }).collect();
+    let pats: Vec<String> = pats_text(&cp, &|j| format!("v{}x{}", i, j));
     let pt = if arity == 1 { pats[0].clone() } else { format!("({})", pats.join(", ")) };
     let last = i + 1 == arms.len();
     s.push_str(&format!("  {} {} => {}{}\n", if last { "└" } else { "├" }, pt, body_text(&a.body, &bound, &params, i), if last { "." } else { "" }));
@@ -167,11 +186,12 @@ fn fun_eval(arms: &[Arm], args: &[f64]) -> Option<(usize, f64, usize)> {
   let mut matching = 0;
   let mut sel = None;
   for (i, a) in arms.iter().enumerate() {
-    let ok = a.pats.iter().zip(args).all(|(p, v)| match p { Pat::Lit(k) => *k as f64 == *v, _ => true });
+    let cp = canon(&a.pats);
+    let ok = pats_match(&cp, args);
     if ok {
       matching += 1;
       if sel.is_none() {
-        let bound: Vec<Option<f64>> = a.pats.iter().zip(args).map(|(p, v)| if *p == Pat::Var { Some(*v) } else { None }).collect();
+        let bound: Vec<Option<f64>> = cp.iter().zip(args).map(|(p, v)| if *p == Pat::Var { Some(*v) } else { None }).collect();
         sel = Some((i, body_val(&a.body, &bound, args, i)));
       }
     }
@@ -241,7 +261,7 @@ fn mpat_text(p: &MPat, arm: usize, shared: bool) -> (String, Vec<Option<String>>
   match p {
     MPat::Lit(k) => (format!("{}", k), vec![]),
     MPat::Var => { let n = if shared { nm("w", 0) } else { format!("w{}", arm) }; (n.clone(), vec![Some(n)]) }
-    MPat::Tuple(ps) => { let bound: Vec<Option<String>> = ps.iter().enumerate().map(|(j, q)| if *q == Pat::Var { Some(nm("w", j)) } else { None }).collect(); (format!("({})", ps.iter().enumerate().map(|(j, q)| pat_text(q, &nm("w", j))).collect::<Vec<_>>().join(", ")), bound) }
+    MPat::Tuple(ps) => { let ps = canon(ps); let bound: Vec<Option<String>> = ps.iter().enumerate().map(|(j, q)| if *q == Pat::Var { Some(nm("w", j)) } else { None }).collect(); (format!("({})", pats_text(&ps, &|j| nm("w", j)).join(", ")), bound) }
     MPat::ArrEmpty => ("[]".into(), vec![]),
     MPat::ArrHead => { let n = nm("h", 0); (format!("[{} ...]", n), vec![Some(n)]) }
     MPat::ArrLast => { let n = nm("l", 0); (format!("[... {}]", n), vec![Some(n)]) }
@@ -250,7 +270,7 @@ fn mpat_text(p: &MPat, arm: usize, shared: bool) -> (String, Vec<Option<String>>
     MPat::ArrOne => { let a = nm("w", 0); (format!("[{}]", a), vec![Some(a)]) }
     MPat::ArrHeadRest => { let a = nm("w", 0); (format!("[{} | rest{}]", a, arm), vec![Some(a)]) }
     MPat::Variant(v, None) => (format!(":{}", VARIANTS[*v as usize % 3]), vec![]),
-    MPat::Variant(v, Some(q)) => { let n = if shared { nm("w", 0) } else { format!("w{}", arm) }; (format!(":{}({})", VARIANTS[*v as usize % 3], pat_text(q, &n)), vec![if *q == Pat::Var { Some(n) } else { None }]) }
+    MPat::Variant(v, Some(q)) => { let n = if shared { nm("w", 0) } else { format!("w{}", arm) }; (format!(":{}({})", VARIANTS[*v as usize % 3], pat_text(q, &n)), vec![if matches!(q, Pat::Var | Pat::Same(_)) { Some(n) } else { None }]) }
   }
 }
 fn guard_text(g: &Guard, bound: &[Option<String>]) -> String {
@@ -269,7 +289,7 @@ fn match_eval(val: &MVal, arms: &[MArm]) -> MatchModel {
     let bound: Option<Vec<Option<f64>>> = match (&a.pat, val) {
       (MPat::Lit(k), MVal::Scalar(v)) => if k == v { Some(vec![]) } else { None },
       (MPat::Var, MVal::Scalar(v)) => Some(vec![Some(*v as f64)]),
-      (MPat::Tuple(ps), MVal::Tuple(x, y)) => { let vs = [*x as f64, *y as f64]; if ps.iter().zip(vs).all(|(p, v)| match p { Pat::Lit(k) => *k as f64 == v, _ => true }) { Some(ps.iter().zip(vs).map(|(p, v)| if *p == Pat::Var { Some(v) } else { None }).collect()) } else { None } }
+      (MPat::Tuple(ps), MVal::Tuple(x, y)) => { let ps = canon(ps); let vs = [*x as f64, *y as f64]; if pats_match(&ps, &vs) { Some(ps.iter().zip(vs).map(|(p, v)| if *p == Pat::Var { Some(v) } else { None }).collect()) } else { None } }
       (MPat::ArrEmpty, MVal::Vector(v)) => if v.is_empty() { Some(vec![]) } else { None },
       (MPat::ArrHead, MVal::Vector(v)) => v.first().map(|h| vec![Some(*h as f64)]),
       (MPat::ArrLast, MVal::Vector(v)) => v.last().map(|l| vec![Some(*l as f64)]),
@@ -278,7 +298,7 @@ fn match_eval(val: &MVal, arms: &[MArm]) -> MatchModel {
       (MPat::ArrOne, MVal::Vector(v)) => if v.len() == 1 { Some(vec![Some(v[0] as f64)]) } else { None },
       (MPat::ArrHeadRest, MVal::Vector(v)) => v.first().map(|h| vec![Some(*h as f64)]),
       (MPat::Variant(pv, pp), MVal::Enum { variant, payload, .. }) => {
-        if pv % 3 != variant % 3 { None } else { match (pp, payload) { (None, _) => Some(vec![]), (Some(Pat::Lit(k)), Some(p)) => if k == p { Some(vec![None]) } else { None }, (Some(Pat::Var), Some(p)) => Some(vec![Some(*p as f64)]), (Some(Pat::Wild), Some(_)) => Some(vec![None]), (Some(_), None) => None } }
+        if pv % 3 != variant % 3 { None } else { match (pp, payload) { (None, _) => Some(vec![]), (Some(Pat::Lit(k)), Some(p)) => if k == p { Some(vec![None]) } else { None }, (Some(Pat::Var | Pat::Same(_)), Some(p)) => Some(vec![Some(*p as f64)]), (Some(Pat::Wild), Some(_)) => Some(vec![None]), (Some(_), None) => None } }
       }
       _ => None,
     };
@@ -337,7 +357,7 @@ fn check(c: &Case) -> Verdict {
   match c {
     Case::Fun { arity, arms, args, call_arity } => {
       v.label("class:function");
-      let pc: Vec<String> = arms.iter().map(|a| a.pats.iter().map(|p| match p { Pat::Lit(_) => "L", Pat::Var => "V", Pat::Wild => "W" }).collect::<String>()).collect();
+      let pc: Vec<String> = arms.iter().map(|a| canon(&a.pats).iter().map(|p| match p { Pat::Lit(_) => "L", Pat::Var => "V", Pat::Wild => "W", Pat::Same(_) => "R" }).collect::<String>()).collect();
       if call_arity != arity {
         v.label("wrong-arity");
         v.key = Some(format!("fun|arity|{}|{}", arity, call_arity));
